@@ -30,6 +30,9 @@ type c04Case struct {
 	// Prelude: an earlier unary call on the same connection has completed and its context was cancelled
 	// right away (`defer cancel()`), before the RPC under test starts.
 	Prelude bool
+	// NoAccept (soft cancel only): the transport takes no byte at all after the cancel. The operations in flight
+	// at that moment must still return; operations issued afterwards are known finding F13 and are not issued.
+	NoAccept bool
 }
 
 // weighted choice alphabet for C04: grants are frequent so that several operations are in
@@ -91,6 +94,7 @@ func genC04(t *rapid.T) c04Case {
 		c.Cfg.PointLimit = 6
 	}
 	c.Choices = rapid.SliceOfN(rapid.SampledFrom(c04Kinds), 0, 40).Draw(t, "choices")
+	c.NoAccept = rapid.Bool().Draw(t, "noaccept")
 	return c
 }
 
@@ -237,12 +241,21 @@ func runC04(c c04Case) (r pbt.Result) {
 	w.Trace = append(w.Trace, "CANCEL")
 	w.CancelRPC(0)
 	frozen := sim.Filter{NoTransport: true, NoGrants: true}
+	skipLate := false
 	if soft && pbt.Excluded("F13") {
 		// known finding F13: in soft mode a stalled transport blocks later calls behind the cancel packet;
-		// excluded by letting the transport accept (never deliver) client bytes.
-		frozen.C2SAcceptOnly = true
-		if pendingWrite {
+		// excluded either by letting the transport accept (never deliver) client bytes, or by keeping it
+		// fully frozen and not issuing later calls (the ones in flight must return all the same).
+		if c.NoAccept && !c.Second && len(atPoint) == 0 {
+			// (a call held at a scheduling point before it takes its lock behaves like a later call: F13 again)
+			skipLate = true
 			r.Excluded = "F13"
+			r.Label("soft_cancel_transport_takes_nothing")
+		} else {
+			frozen.C2SAcceptOnly = true
+			if pendingWrite {
+				r.Excluded = "F13"
+			}
 		}
 	}
 	if c.Second {
@@ -298,7 +311,7 @@ func runC04(c c04Case) (r pbt.Result) {
 	}
 	// later operations fail at once, still frozen
 	lateStart := w.Clock
-	for i := 0; i < 20; i++ {
+	for i := 0; i < 20 && !skipLate; i++ {
 		f := frozen
 		f.NoGrants = false
 		f.OnlyActors = func(n string) bool { return n == "c0.1" || n == "c0.3" }
